@@ -215,3 +215,16 @@ Definition one_file_per_board (ext : str) (out : path) (tree : board) (af : list
    directory; otherwise MkdirAll legitimately creates the missing ancestors) *)
 Definition ancestors_exist (out : path) (f : fsys) : bool :=
   forallb (fun d => is_dir f d) (prefixes (removelast out)).
+
+(* ---- precondition on the file system for the "one file per board" theorem ---- *)
+Definition has_kids (b : board) : bool :=
+  match b with Board _ _ ls ss ts => nonempty ls || nonempty ss || nonempty ts end.
+
+(* ancestors of the output directory are directories (and not files), no file inside the location
+   already looks like an output of this run (tag 1), and for a single-board render the output path is
+   not an existing directory *)
+Definition fs_pre (ext : str) (out : path) (root : board) (f : fsys) : bool :=
+  ancestors_exist out f
+  && forallb (fun d => negb (is_file f d)) (prefixes (removelast out))
+  && forallb (fun e => negb (inside_file_b ext out (fst e) && N.eqb (snd e) 1)) (files f)
+  && (has_kids root || negb (is_dir f (file_of ext out))).
